@@ -82,7 +82,7 @@ Section RT.
     end.
 
   (* first byte of what the encoder emits next *)
-  Lemma hd_enc_from_letter cur t l r : enc_from cur t = l :: r -> is_letter l = true ->
+  Lemma hd_enc_from_letter cur after t l r : enc_from cur after t = l :: r -> is_letter l = true ->
     exists d t', t = d :: t' /\ d = l.
   Proof.
     destruct t as [|d t']; cbn [Codepage.enc_from]; [discriminate|].
@@ -99,16 +99,16 @@ Section RT.
   (* a unit w (the encoding of one character) is pushed whole *)
   Lemma dls_unit cur acc l c w t cur' :
     enc l c = Some w -> ok_after w t = true ->
-    dls cur acc (w ++ enc_from cur' t) = dls cur (rev w ++ acc) (enc_from cur' t).
+    dls cur acc (w ++ enc_from cur' false t) = dls cur (rev w ++ acc) (enc_from cur' false t).
   Proof.
     intros E Hok. destruct (enc_shape _ _ _ E) as [b1 [Hb [->|[b2 ->]]]]; cbn [app rev].
-    - apply dls_push. destruct (enc_from cur' t); [exact I|]. rewrite (high_not_caret _ Hb). reflexivity.
+    - apply dls_push. destruct (enc_from cur' false t); [exact I|]. rewrite (high_not_caret _ Hb). reflexivity.
     - rewrite dls_push by (rewrite (high_not_caret _ Hb); reflexivity).
-      apply dls_push. destruct (enc_from cur' t) as [|x r] eqn:Ee; [exact I|].
+      apply dls_push. destruct (enc_from cur' false t) as [|x r] eqn:Ee; [exact I|].
       unfold ok_after, ends_in_caret in Hok. cbn [last] in Hok.
       destruct (is_caret b2) eqn:Hc; [|reflexivity]. cbn [negb orb] in Hok. cbn [andb].
       destruct (is_letter x) eqn:Hl; [|reflexivity]. exfalso.
-      destruct (hd_enc_from_letter _ _ _ _ Ee Hl) as [d [t' [-> ->]]]. rewrite Hl in Hok. discriminate.
+      destruct (hd_enc_from_letter _ _ _ _ _ Ee Hl) as [d [t' [-> ->]]]. rewrite Hl in Hok. discriminate.
   Qed.
 
   (* invariant: [pre] are pending bytes of codepage cur that decode, followed by anything, to [p] *)
@@ -123,15 +123,15 @@ Section RT.
 
   Theorem dls_enc_from : forall s cur pre p,
     safe cur s = true -> pending cur pre p ->
-    dls cur (rev pre) (enc_from cur s) = p ++ s.
+    dls cur (rev pre) (enc_from cur false s) = p ++ s.
   Proof.
     pose proof letters_hold as T. unfold letters_ok in T.
     apply andb_prop in T as [T _]. apply andb_prop in T as [T Tprop]. apply andb_prop in T as [T Tso]. clear T.
     induction s as [|c t IH]; intros cur pre p Hs Hp; cbn [Codepage.enc_from].
     - cbn [Codepage.dls]. rewrite rev_involutive. specialize (Hp []). rewrite app_nil_r, dec_nil in Hp. exact Hp.
     - cbn [safe] in Hs. destruct (is_ascii c) eqn:Ha.
-      + apply andb_prop in Hs as [Hnc Hs]. apply negb_true_iff in Hnc.
-        rewrite dls_push by (destruct (enc_from cur t); [exact I|rewrite Hnc; reflexivity]).
+      + apply andb_prop in Hs as [Hnc Hs]. apply negb_true_iff in Hnc. cbn [andb]. rewrite Hnc.
+        rewrite dls_push by (destruct (enc_from cur false t); [exact I|rewrite Hnc; reflexivity]).
         replace (c :: rev pre) with (rev (pre ++ [c])) by (rewrite rev_app_distr; reflexivity).
         rewrite (IH cur (pre ++ [c]) (p ++ [c]) Hs (pending_ascii _ _ _ _ Hp Ha)).
         rewrite <- app_assoc. reflexivity.
@@ -145,7 +145,7 @@ Section RT.
           apply andb_prop in Hs as [Hok Hs].
           destruct (search_letter _ _ _ _ _ Tso Es) as [Hk [Ek Hin]].
           (* the encoder's own marker *)
-          cbn [Codepage.dls]. destruct (w ++ enc_from k t) as [|x r] eqn:Ew.
+          cbn [Codepage.dls]. destruct (w ++ enc_from k false t) as [|x r] eqn:Ew.
           { destruct (enc_shape _ _ _ Ek) as [b1 [_ [->|[b2 ->]]]]; discriminate. }
           replace (is_caret caret) with true by (symmetry; apply N.eqb_refl). rewrite Hk. cbn [andb].
           assert (k =? gen_propagate_letter = false) as Hnp.
@@ -168,7 +168,7 @@ Section RT.
   Proof.
     intros Hs. rewrite to_lossy_bytes_is_enc_from. unfold to_lossy_string.
     pose proof (dls_enc_from s gen_default_codepage [] [] Hs (pending_nil _)) as H. cbn [rev app] in H.
-    destruct (enc_from gen_default_codepage s) eqn:E; [|exact H].
+    destruct (enc_from gen_default_codepage false s) eqn:E; [|exact H].
     cbn [Codepage.dls rev] in H. rewrite dec_nil in H. exact H.
   Qed.
 
